@@ -121,9 +121,43 @@ var runePool = []rune{'a', 'Z', '0', ' ', ' ', '\t', '\n', '\r', '"', '\'', '\\'
 	0x00, 0x01, 0x08, 0x0B, 0x0C, 0x1F, 0x7F, 0x80, 0x85, 0xA0, 'é', 'ß', 'Ω', 'ж', '世', '界', 0x2028, 0x2029, 0xFEFF, 0xFFFD, 0xFFFE, 0xFFFF,
 	0xD7FF, 0xE000, 0x10000, 0x1D11E, 0x1F600, 0x10FFFF}
 
-// genString draws a valid-UTF-8 string: any unicode scalar value, control characters included.
+// escapeLike are pieces of text that LOOK like the codecs' own escape syntax (JSON \uXXXX and
+// backslash escapes, the HTML-safe forms encoding/json writes for < > & and U+2028/9, XML/HTML
+// entities and section markers, percent-encoding) or carry the characters those escapes stand for:
+// strings about escapes, regular expressions, Windows paths, URLs with query parameters.  A writer
+// that post-processes its output as text, or a reader that unescapes twice, changes them.
+var escapeLike = []string{`\u0026`, `\u003c`, `\u003e`, `\u003C`, `\u2028`, `\u2029`, `\u00e9`, `\u0000`, `\ud83d\ude00`, `\u`, `\u00`,
+	`\`, `\\`, `\"`, `\n`, `\t`, `\/`, `\b`, `"`, `'`, `&`, `<`, `>`, `&amp;`, `&lt;`, `&gt;`, `&quot;`, `&#38;`, `&#x26;`, `&amp;amp;`,
+	`]]>`, `<![CDATA[`, `<!--`, `-->`, `<?xml`, `</s>`, `%26`, `%5Cu0026`, `?a=1&b=<2>`, `C:\users\u0026me`, `^\d+\.\u003e$`, "\u2028", "\u2029"}
+
+// EscapeLikeStrings counts the generated strings of that class.
+var EscapeLikeStrings int
+
+// genEscapeLike concatenates 1–5 such pieces, now and then with a letter or a backslash in between.
+func genEscapeLike(r *rng.R) string {
+	var sb strings.Builder
+	for i, n := 0, 1+r.Intn(5); i < n; i++ {
+		sb.WriteString(escapeLike[r.Intn(len(escapeLike))])
+		switch r.Intn(6) {
+		case 0:
+			sb.WriteByte(byte('a' + r.Intn(26)))
+		case 1:
+			sb.WriteByte('\\')
+		case 2:
+			sb.WriteByte(' ')
+		}
+	}
+	EscapeLikeStrings++
+	return sb.String()
+}
+
+// genString draws a valid-UTF-8 string: any unicode scalar value, control characters included;
+// one in six is text that looks like escape syntax (genEscapeLike).
 // forXML restricts it to the characters XML 1.0 can carry (the codecs' common domain).
 func genString(r *rng.R, forXML bool) string {
+	if r.Chance(1, 6) {
+		return genEscapeLike(r) // every piece is made of characters XML 1.0 can carry
+	}
 	n := 0
 	switch r.Intn(6) {
 	case 0:
